@@ -44,6 +44,7 @@ type HarnessCfg struct {
 	Thorough  TierCfg  `json:"thorough"`
 	Merge     []string `json:"merge"`
 	Abstract  int      `json:"abstractMulDivMinWidth"` // 0 = fully interpreted
+	AbstractG bool     `json:"abstractGuards"`
 	Reach     []string `json:"reach"`
 	MustFail  []string `json:"mustfail"`
 	NoIfConv  bool     `json:"noIfConv"`
@@ -229,7 +230,7 @@ func cmdCheck(args []string) int {
 		}
 		x.MaxPaths = tc.MaxPaths
 		if h.Abstract > 0 {
-			x.Abstract, x.AbstractW = true, h.Abstract
+			x.Abstract, x.AbstractW, x.AbstractG = true, h.Abstract, h.AbstractG
 		}
 		rep := x.Run()
 		reports = append(reports, rep)
